@@ -15,7 +15,8 @@ Proof. vm_compute. reflexivity. Qed.
 (* the source text of the overrides that Model/DropIn.v transcribes is the text the transcription was made from *)
 Definition expected_pins : list (string * string * Z) := [
   ("DateTime"%string, "date"%string, 2579156631297391);
-  ("DateTime"%string, "time"%string, 1086023418213242592);
+  ("DateTime"%string, "time"%string, 799555493082218215);
+  ("DateTime"%string, "timetz"%string, 531833493557984601);
   ("DateTime"%string, "astimezone"%string, 524461928055106474);
   ("DateTime"%string, "__str__"%string, 656740924710558607);
   ("DateTime"%string, "__sub__"%string, 143816649780709491);
@@ -43,7 +44,7 @@ Definition expected_pins : list (string * string * Z) := [
   ("Time"%string, "__rsub__"%string, 237649091547306579);
   ("Time"%string, "__add__"%string, 911479651245016211);
   ("Time"%string, "replace"%string, 967735801662812942);
-  ("Time"%string, "diff"%string, 329345898375285709);
+  ("Time"%string, "diff"%string, 742782167335028036);
   ("FormattableMixin"%string, "__str__"%string, 926797316400637718);
   ("FormattableMixin"%string, "__format__"%string, 450796075465230740);
   ("FormattableMixin"%string, "for_json"%string, 977467118256459795)
@@ -57,20 +58,28 @@ Ltac lk := repeat match goal with
 
 (* the inherited accessors: by the generated table they are answered by the native C class; the dispatch model then IS the native
    function on the same fields.  This is CPython's inheritance (trusted), stated here so that it fails if the table changes. *)
-Definition inherited (a : acc) : bool := match a with A_date | A_time => false | _ => true end.
+Definition inherited (a : acc) : bool := match a with A_date | A_time | A_timetz => false | _ => true end.
 Lemma std_accessor_agrees a x : inherited a = true -> dispatch_model a x = Some (native_acc a x).
 Proof. destruct a; cbn [inherited]; intros H; try discriminate; unfold dispatch_model, acc_name; lk; reflexivity. Qed.
 
 Lemma comparisons_and_hash_are_inherited :
   map (fun n => std_lookup "DateTime" n) ["__eq__"; "__ne__"; "__lt__"; "__le__"; "__gt__"; "__ge__"; "__hash__"; "timestamp"; "utcoffset"; "isoformat";
-                                          "strftime"; "ctime"; "tzname"; "dst"; "timetz"]%string
+                                          "strftime"; "ctime"; "tzname"; "dst"]%string
   = map (fun o => Some (1, o)) ["datetime"; "datetime"; "datetime"; "datetime"; "datetime"; "datetime"; "datetime"; "datetime"; "datetime"; "datetime";
-                                "date"; "datetime"; "datetime"; "datetime"; "datetime"]%string
+                                "date"; "datetime"; "datetime"; "datetime"]%string
   /\ map (fun n => std_lookup "Date" n) ["__eq__"; "__lt__"; "__hash__"; "isoformat"; "toordinal"; "weekday"; "isocalendar"; "timetuple"; "__rsub__"; "__radd__"]%string
      = map (fun o => Some (1, o)) ["date"; "date"; "date"; "date"; "date"; "date"; "date"; "date"; "date"; "date"]%string
   /\ map (fun n => std_lookup "Time" n) ["__eq__"; "__lt__"; "__hash__"; "isoformat"; "utcoffset"; "tzname"; "dst"; "strftime"]%string
      = map (fun o => Some (1, o)) ["time"; "time"; "time"; "time"; "time"; "time"; "time"; "time"]%string.
 Proof. vm_compute. repeat split; reflexivity. Qed.
+
+(* witnesses: Europe/Paris in 2013 *)
+Definition paris : zone := mkzone 3600 [(63500288400, 7200); (63518432400, 3600)].     (* 2013: 03-31 01:00Z -> +2, 10-27 01:00Z -> +1 *)
+Definition tz_paris (id : Z) : tzi := mktzi id false paris.
+Definition tz_utc (id : Z) : tzi := mktzi id false (mkzone 0 []).
+Definition W_2013_03_31 : Z := 63500284800 * 1000000.       (* 2013-03-31T00:00:00 wall *)
+Definition W_2013_10_27 : Z := 63518428800 * 1000000.       (* 2013-10-27T00:00:00 wall *)
+Definition HOUR : Z := 3600 * 1000000.
 
 (* ------------------------------------------------------------------------------------------------ date() / time() *)
 Lemma date_fields x :
@@ -82,8 +91,14 @@ Proof.
   destruct (ord2ymd (v_wall x / us_per_day + 1)) as [[y m] d]. exists y, m, d. repeat split. exact H.
 Qed.
 
+Lemma tod_fields t : 0 <= t < 86400000000 ->
+  0 <= t / 1000000 / 3600 < 24 /\ 0 <= (t / 1000000 / 60) mod 60 < 60 /\ 0 <= (t / 1000000) mod 60 < 60 /\ 0 <= t mod 1000000 < 1000000
+  /\ ((t / 1000000 / 3600 * 60 + (t / 1000000 / 60) mod 60) * 60 + (t / 1000000) mod 60) * 1000000 + t mod 1000000 = t.
+Proof. lia. Qed.
+
+(* time(): the pendulum Time with the native time()'s hour/minute/second/microsecond AND fold (Time(..., fold=self.fold)) *)
 Lemma time_fields x :
-  exists h mi s us, native_acc A_time x = Ok [0; h; mi; s; us; Z.b2z (v_fold x)] /\ dispatch_model A_time x = Some (Ok [1; h; mi; s; us; 0])
+  exists h mi s us, native_acc A_time x = Ok [0; h; mi; s; us; Z.b2z (v_fold x)] /\ dispatch_model A_time x = Some (Ok [1; h; mi; s; us; Z.b2z (v_fold x)])
     /\ 0 <= h < 24 /\ 0 <= mi < 60 /\ 0 <= s < 60 /\ 0 <= us < 1000000
     /\ ((h * 60 + mi) * 60 + s) * 1000000 + us = v_wall x mod us_per_day.
 Proof.
@@ -91,12 +106,47 @@ Proof.
   unfold time_fields_of. set (t := v_wall x mod us_per_day).
   assert (Ht : 0 <= t < 86400000000) by (unfold t, us_per_day; lia).
   exists (t / 1000000 / 3600), ((t / 1000000 / 60) mod 60), ((t / 1000000) mod 60), (t mod 1000000).
-  split; [reflexivity|]. split; [reflexivity|]. lia.
+  split; [reflexivity|]. split; [reflexivity|]. apply tod_fields; exact Ht.
 Qed.
 
-(* the fold attribute of time() is NOT the native one: DateTime.time() builds Time(h, m, s, us) without fold *)
-Lemma time_fold_refuted : exists x, native_acc A_time x = Ok [0; 2; 30; 0; 0; 1] /\ dispatch_model A_time x = Some (Ok [1; 2; 30; 0; 0; 0]).
-Proof. exists (mkdtv (63518437800 * 1000000) true None). vm_compute. split; reflexivity. Qed.
+(* the model of the override IS the native time() up to the type of the result: same fields, same fold *)
+Lemma time_native x : pd_time x = (TyTime, snd (fst (native_time x)), snd (native_time x)) /\ fst (fst (native_time x)) = Ty_time.
+Proof. split; reflexivity. Qed.
+
+(* the former witness of time-drops-fold (2013-10-27 02:30, fold 1): both answers carry fold 1 now *)
+Lemma time_keeps_fold_instance : let x := mkdtv (W_2013_10_27 + 2 * HOUR + HOUR / 2) true None in
+  native_acc A_time x = Ok [0; 2; 30; 0; 0; 1] /\ dispatch_model A_time x = Some (Ok [1; 2; 30; 0; 0; 1]).
+Proof. vm_compute. split; reflexivity. Qed.
+
+(* timetz(): overridden (the generated table names DateTime): the pendulum Time with the native timetz()'s fields, fold and tzinfo object *)
+Lemma timetz_fields x :
+  exists h mi s us, native_acc A_timetz x = Ok [0; h; mi; s; us; Z.b2z (v_fold x); tz_code (v_tz x)]
+    /\ dispatch_model A_timetz x = Some (Ok [1; h; mi; s; us; Z.b2z (v_fold x); tz_code (v_tz x)])
+    /\ 0 <= h < 24 /\ 0 <= mi < 60 /\ 0 <= s < 60 /\ 0 <= us < 1000000
+    /\ ((h * 60 + mi) * 60 + s) * 1000000 + us = v_wall x mod us_per_day.
+Proof.
+  unfold dispatch_model, acc_name. lk. cbn [pendulum_acc native_acc pd_timetz native_timetz].
+  unfold time_fields_of. set (t := v_wall x mod us_per_day).
+  assert (Ht : 0 <= t < 86400000000) by (unfold t, us_per_day; lia).
+  exists (t / 1000000 / 3600), ((t / 1000000 / 60) mod 60), ((t / 1000000) mod 60), (t mod 1000000).
+  split; [reflexivity|]. split; [reflexivity|]. apply tod_fields; exact Ht.
+Qed.
+
+(* ... and as records: the very tzinfo value (not only its identity), fold and fields of the native timetz(), of type Time *)
+Lemma timetz_native x :
+  std_lookup "DateTime" "timetz" = Some (0, "DateTime"%string) /\
+  pd_timetz x = (TyTime, snd (fst (fst (native_timetz x))), snd (fst (native_timetz x)), snd (native_timetz x)) /\
+  snd (native_timetz x) = v_tz x /\ snd (fst (native_timetz x)) = v_fold x /\
+  (* time() is timetz() without the tzinfo *)
+  pd_time x = fst (pd_timetz x).
+Proof. split; [vm_compute; reflexivity|]. repeat split. Qed.
+
+(* the former witness of timetz-returns-native-time (2013-03-31 03:30 Europe/Paris) and a fold-1 value: a pendulum Time with the receiver's tzinfo *)
+Lemma timetz_instance :
+  dispatch_model A_timetz (mkdtv (W_2013_03_31 + 3 * HOUR + HOUR / 2) false (Some (tz_paris 1))) = Some (Ok [1; 3; 30; 0; 0; 0; 1]) /\
+  dispatch_model A_timetz (mkdtv (W_2013_10_27 + 2 * HOUR + HOUR / 2) true (Some (tz_paris 1))) = Some (Ok [1; 2; 30; 0; 0; 1; 1]) /\
+  dispatch_model A_timetz (mkdtv (W_2013_10_27 + 2 * HOUR + HOUR / 2) true None) = Some (Ok [1; 2; 30; 0; 0; 1; NONE]).
+Proof. vm_compute. repeat split; reflexivity. Qed.
 
 (* ------------------------------------------------------------------------------------------------ astimezone, constructors *)
 (* a coherent tzinfo: a FixedTimezone has no transitions *)
@@ -193,12 +243,6 @@ Qed.
 Lemma replace_naive x W f : v_tz x = None -> pd_replace x W f = Ok (mkdtv W f None).
 Proof. intros E. unfold pd_replace. rewrite E. reflexivity. Qed.
 
-Definition paris : zone := mkzone 3600 [(63500288400, 7200); (63518432400, 3600)].     (* 2013: 03-31 01:00Z -> +2, 10-27 01:00Z -> +1 *)
-Definition tz_paris (id : Z) : tzi := mktzi id false paris.
-Definition tz_utc (id : Z) : tzi := mktzi id false (mkzone 0 []).
-Definition W_2013_03_31 : Z := 63500284800 * 1000000.       (* 2013-03-31T00:00:00 wall *)
-Definition W_2013_10_27 : Z := 63518428800 * 1000000.       (* 2013-10-27T00:00:00 wall *)
-Definition HOUR : Z := 3600 * 1000000.
 
 (* replace onto a skipped wall time differs from the native replace (which keeps the impossible fields): pendulum's documented normalisation (C02) *)
 Lemma replace_skipped_differs :
@@ -368,12 +412,13 @@ Proof. vm_compute. split; reflexivity. Qed.
 (* ------------------------------------------------------------------------------------------------ result types *)
 Lemma returns_pendulum_types x y tz isp :
   is_pendulum_type (fst (pd_date (o_val x))) = true /\ is_pendulum_type (fst (fst (pd_time (o_val x)))) = true /\
+  is_pendulum_type (fst (fst (fst (pd_timetz (o_val x))))) = true /\
   (forall t r k, pd_astimezone (o_val x) tz isp = Ok (t, r, k) -> is_pendulum_type t = true) /\
   (forall t N, pd_sub x y = Ok (t, N) -> is_pendulum_type t = true) /\
   (forall n1 n2 t N, pd_date_sub n1 n2 = Ok (t, N) -> is_pendulum_type t = true) /\
   (forall a b c d e f g h, is_pendulum_type (fst (pd_time_sub a b c d e f g h)) = true).
 Proof.
-  split; [reflexivity|]. split; [reflexivity|]. split; [|split; [|split]].
+  split; [reflexivity|]. split; [reflexivity|]. split; [reflexivity|]. split; [|split; [|split]].
   - intros t r k. unfold pd_astimezone. destruct (native_astimezone _ _); [|discriminate].
     destruct (_ && _); [destruct (pd_create _ _ _); [|discriminate]|]; intros H; injection H as <- _ _; reflexivity.
   - intros t N. unfold pd_sub. destruct (as_pendulum x); [|discriminate]. destruct (as_pendulum y); [|discriminate]. cbn [bind].
@@ -382,10 +427,10 @@ Proof.
   - reflexivity.
 Qed.
 
-(* timetz() is not overridden: the generated table resolves it to the native class, whose result is a native datetime.time *)
-Lemma timetz_type_refuted : std_lookup "DateTime" "timetz" = Some (1, "datetime"%string) /\
-  forall x, is_pendulum_type (fst (fst (fst (native_timetz x)))) = false.
-Proof. split; [vm_compute; reflexivity|]. intros x. reflexivity. Qed.
+(* Time - Time (an extension: the native time has no subtraction) is the exact difference of the two times of day, microseconds included (Time.diff after f98403b) *)
+Lemma time_sub_exact h1 m1 s1 us1 h2 m2 s2 us2 :
+  pd_time_sub h1 m1 s1 us1 h2 m2 s2 us2 = (TyDuration, (((h1 * 60 + m1) * 60 + s1) * 1000000 + us1) - (((h2 * 60 + m2) * 60 + s2) * 1000000 + us2)).
+Proof. unfold pd_time_sub. f_equal. ring. Qed.
 
 (* the astimezone result carries the tz argument itself, except: stdlib ZoneInfo argument and a result in the second pass of an overlap *)
 Lemma astimezone_keeps_tzinfo_object x tz r t k : pd_astimezone x tz false = Ok (t, r, k) -> k = negb (v_fold r && negb (match v_tz x with Some tx => tz_id tx =? tz_id tz | None => false end)) \/ v_fold r = false.
